@@ -134,8 +134,27 @@ def install(reg, src):
         c.requires(sp.wf(e), name="well-formed scalar expression")
         grad_contract(c, sp, e, wrt)
 
+    @reg.contract(f"{M}:_gradient_iterative", props=["C02", "C15"], cases={"node": cases}, group="grad", rank=3,
+                  bounded="worklist with results keyed by id(): block clauses are proved in contracts/iterative_c.py, "
+                          "the traversal (no KeyError, root reached) is covered by the bounded stand-in")
+    def _(c):
+        sp = Spec(c.ip)
+        node = c.choose("node", cases)
+        e = c.arg("expr", node_type(node) if node else None)
+        wrt = c.arg("wrt", T.obj("Variable"))
+        c.requires(sp.wf(e), name="well-formed scalar expression")
+        grad_contract(c, sp, e, wrt)
+
+    @reg.contract(f"{M}:_estimate_tree_depth", props=["C15"],
+                  trusted="returns some int and writes nothing (frame scan: no attribute/subscript stores in the body); "
+                          "its value only selects between two twins that meet the same contract")
+    def _(c):
+        c.arg("expr"); c.arg("max_check", default=500); c.arg("full_traversal", default=False)
+        c.returns(T.int_())
+
     reg.grad_contract = grad_contract
     install_rules(reg, src)
+    install_replay(reg, src)
 
 
 # ======================================================================================= registered vector rules
@@ -296,3 +315,89 @@ def install_rules(reg, src):
                   trusted="double accumulation loop over Q + Q.T not yet under proof; exercised by the bounded stand-in")
     def _(c):
         setup(c, "QuadraticForm")
+
+
+# ======================================================================================= replay support
+def install_replay(reg, src):
+    import random as _random
+    import sys as _sys, os as _os
+    _sys.path.insert(0, _os.path.join(_os.path.dirname(_os.path.dirname(_os.path.abspath(__file__))), "native"))
+    import build as nbuild
+    from pyvc.concretize import Concretizer, find_const
+
+    def grad_conc(eng, ob, model, oid):
+        cz = Concretizer(eng, model)
+        e = find_const(ob, "expr!")
+        w = find_const(ob, "wrt!")
+        if e is None or w is None:
+            return None
+        erc = cz.expr(e)
+        wname = cz.name(cz.S.F("name", sym.Name)(w))
+        cz.env.setdefault(wname, 0.7)
+        return {"family": "gradient", "fn": oid.split(" / ")[0], "args": [erc, {"cls": "Variable", "name": wname}],
+                "clause": oid.split(" / ")[-1], "env": cz.env}
+
+    def grad_search(eng, ob, oid, seed):
+        rng = _random.Random(seed)
+        case = oid.split(" / ")[1]
+        pool = []
+        want_root = case.split("=", 1)[1] if case.startswith("node=") else None
+        tries = 0
+        while len(pool) < 1200 and tries < 60000:
+            tries += 1
+            e = nbuild.rand_scalar(rng, 3)
+            if want_root is not None:
+                root = e["cls"] + (":" + e["op"] if e["cls"] in ("BinaryOp", "UnaryOp") else "")
+                if root != want_root:
+                    continue
+            for wn in ("x", "v[0]", "v[1]", "q"):
+                pool.append({"args": [e, {"cls": "Variable", "name": wn}]})
+        fnkey = oid.split(" / ")[0]
+        if "_register_vector_gradient_rules." in fnkey:
+            want = {"gradient_linear_combination": "LinearCombination", "gradient_vector_sum": "VectorSum",
+                    "gradient_vector_expression_sum": "VectorExpressionSum", "gradient_dot_product": "DotProduct",
+                    "gradient_l2_norm": "L2Norm", "gradient_l1_norm": "L1Norm", "gradient_quadratic_form": "QuadraticForm",
+                    "gradient_vector_power_sum": "VectorPowerSum", "gradient_vector_unary_sum": "VectorUnarySum"}[fnkey.split(".")[-1]]
+            pool = []
+            tries = 0
+            while len(pool) < 1200 and tries < 40000:
+                tries += 1
+                e = nbuild.rand_vector_node(rng, 1)
+                if e["cls"] != want:
+                    continue
+                for wn in ("v[0]", "v[1]", "v[2]", "x"):
+                    pool.append({"args": [e, {"cls": "Variable", "name": wn}]})
+        return {"mode": "search", "family": "gradient", "fn": fnkey, "clause": oid.split(" / ")[-1], "pool": pool,
+                "seed": seed, "points": 2}
+
+    for k in list(reg.contracts):
+        if k.startswith(M + ":") and ("gradient" in k):
+            reg.concretizers[k] = grad_conc
+            reg.native_searches[k] = grad_search
+
+    def simp_conc(eng, ob, model, oid):
+        cz = Concretizer(eng, model)
+        fnkey = oid.split(" / ")[0]
+        op = fnkey.split("_simplify_")[1]
+        names = {"pow": ("base!", "exp!"), "neg": ("expr!",)}.get(op, ("left!", "right!"))
+        args = []
+        for n in names:
+            t = find_const(ob, n)
+            if t is None:
+                return None
+            args.append(cz.expr(t))
+        return {"family": "simplify", "op": op, "fn": fnkey, "args": args, "clause": oid.split(" / ")[-1], "env": cz.env}
+
+    def simp_search(eng, ob, oid, seed):
+        rng = _random.Random(seed)
+        fnkey = oid.split(" / ")[0]
+        op = fnkey.split("_simplify_")[1]
+        k = 1 if op == "neg" else 2
+        pool = [{"args": [nbuild.rand_scalar(rng, 2) for _ in range(k)]} for _ in range(1500)]
+        return {"mode": "search", "family": "simplify", "op": op, "fn": fnkey, "clause": oid.split(" / ")[-1],
+                "pool": pool, "seed": seed, "points": 2}
+
+    for k in list(reg.contracts):
+        if "_simplify_" in k:
+            reg.concretizers[k] = simp_conc
+            reg.native_searches[k] = simp_search
